@@ -26,7 +26,7 @@ class C03(SeqProp):
     id = "C03"
     props_file = "Props/C03.v"
     focus = "conflict"
-    quick_cases = 400
+    quick_cases = 800
     thorough_cases = 6000
     assumptions = [
         "fall times of pulses (FFT modulation) enter the model as oracle inputs; the soundness theorem assumes fall <= 2*rise_time of the scanned channel",
